@@ -102,6 +102,13 @@ CLAIMED = {
             note="Trusted: Coq kernel, extraction+driver, the scheduler harness (threads + Condition). One slot of the lock table is modelled (all keys collide - the hard case); processes are represented by threads; termination under fairness is argued from no_deadlock, not proved; "
                  "nested get_set on colliding keys is excluded by the property; the inner cache follows MemoryCacher's visibility (an entry being written is not yet contained).",
             technique="Coq proof (inductive invariant over interleavings) + scheduled co-simulation with the extracted model + runtime monitor", design="§5 C19"),
+ "C07": dict(text="Coq theorems (C07/Props.v): pack_unpack - for ANY rows with heterogeneous key sets (at least one field), packing column-wise with sorted keys and None for absent cells and unpacking again yields as many rows, numbered 1..N in the order yielded, "
+                  "each with exactly the yielded cell (or None) for every key of the evaluation; minimize_error_bound / minimize_keeps_integers - the 5-decimal normalisation is within half a unit of the fifth decimal and exact on whole numbers (exact rationals). "
+                  "Stub environments/learners/evaluators push generated rows and params (ragged keys incl. 1 vs '1', nested list/tuple/dict, None, NaN/inf, unicode/newline/surrogate strings, reward objects) through real Experiment.run calls: "
+                  "tables vs the documented normalisation, file == no-file == Result.from_file, plain/.gz, fresh/restored, and runs cut short by an interrupt or an un-encodable row (evaluations completed before the fault must be present in all three).",
+            note="Trusted: Coq kernel, extraction+driver, harness (matcher for the documented normalisation). json/gzip and Table.insert (C17) are used as they are; minimize's binary64 rounding is compared with the exact-rational model up to near-ties; "
+                 "registered reward objects are expected back as the JSON form coba.json gives them; field names are str/int and distinct after str() within a row. Open finding: an evaluation whose rows all have no fields reads back with zero rows.",
+            technique="Coq proof (pack/unpack round trip by induction, rational rounding bound) + extracted-model correspondence + end-to-end normalisation oracle on real runs", design="§5 C07"),
 }
 NA_REASON = "check not built yet in this revision (planned, see DESIGN.md §8); no claim is made"
 def main():
